@@ -323,6 +323,12 @@ public:
     using assume_ref_t = typename visitor_t::assume_ref_t;
     using assert_ref_t = typename visitor_t::assert_ref_t;
     using select_ref_t = typename visitor_t::select_ref_t;
+    using arr_init_t = typename visitor_t::arr_init_t;
+    using arr_store_t = typename visitor_t::arr_store_t;
+    using arr_load_t = typename visitor_t::arr_load_t;
+    using arr_assign_t = typename visitor_t::arr_assign_t;
+    using int_to_ref_t = typename visitor_t::int_to_ref_t;
+    using ref_to_int_t = typename visitor_t::ref_to_int_t;
     using bool_bin_op_t = typename visitor_t::bool_bin_op_t;
     using bool_assign_cst_t = typename visitor_t::bool_assign_cst_t;
     using bool_assign_var_t = typename visitor_t::bool_assign_var_t;
@@ -829,6 +835,30 @@ public:
     virtual void visit(select_ref_t &s) override {
       propagate_data(s);
     }    
+
+    virtual void visit(arr_init_t &s) override {
+      propagate_data(s);
+    }
+
+    virtual void visit(arr_store_t &s) override {
+      propagate_data(s);
+    }
+
+    virtual void visit(arr_load_t &s) override {
+      propagate_data(s);
+    }
+
+    virtual void visit(arr_assign_t &s) override {
+      propagate_data(s);
+    }
+
+    virtual void visit(int_to_ref_t &s) override {
+      propagate_data(s);
+    }
+
+    virtual void visit(ref_to_int_t &s) override {
+      propagate_data(s);
+    }
 
     virtual void visit(bool_bin_op_t &s) override {
       propagate_data(s);
